@@ -25,6 +25,9 @@ ENGINES = {
                    kind="fake Streamer/ClientStream event log + gate-directed scenario programs, ordering monitor"),
     "gme": dict(module="grpcgcp", pkg=".", pkgname="grpcgcp", pkgmarker="grpcgcp.", harness="grpcgcp",
                 files=["gme_test.go"], kind="GCPMultiEndpoint over real gRPC and in-process bufconn servers: routing observed at the servers vs model, dial log, ClientConn states, goroutine profile"),
+    "stress": dict(module="grpcgcp", pkg=".", pkgname="grpcgcp", pkgmarker="grpcgcp.", harness="grpcgcp",
+                   files=["stress_test.go", "poolsim_test.go"], instrument={"gcp_balancer.go": ["-yield"], "gcp_picker.go": ["-yield"]},
+                   kind="concurrent driver: serialized callbacks + many pick/complete goroutines, yield-site schedule perturbation, gates; quiescent invariants"),
 }
 
 POOLSIM_ESSENTIAL = {
@@ -146,6 +149,14 @@ PROPS["C16"] = dict(level="fault_enumeration",
                  essential={"C16": ["C16.rejected", "C16.routing-unchanged", "C16.update:default-missing", "C16.update:existing-empty", "C16.update:new-empty", "C16.update:dial-fail", "C16.failed-construction", "C16.close", "C16.no-goroutine-left"]},
                  timeout=dict(quick=1200, thorough=7200))])
 
+PROPS["C10"] = dict(level="exploration",
+    rule="race-instrumented executions of 4 workloads (balancer driven as gRPC does x 6 feature configurations; GCPMultiEndpoint RPCs || updates || outages; MultiEndpoint reports || list updates || Current with real timers; stream wrapper sender || receiver || bystanders), each with seeded yield-site schedule perturbation; non-trivial = every execution (its op counts and the overlap pairs actually observed are in the evidence); distinct = (workload, configuration, run index)",
+    assumptions=["the Go race detector only reports accesses that actually happened in an execution; harness state is synchronised only at the boundary and verifYield adds no happens-before edges",
+                 "reports whose two stacks contain no repo frame make the run inconclusive, never a verdict"],
+    stages=[dict(name="race-balancer", engine="stress", test="TestVerifRaceBalancer", race=True, batches=dict(quick=6, thorough=18),
+                 essential={"C10": ["C10.picks", "C10.placed", "C10.swaps-completed", "C10.overlap:callback||pick", "C10.overlap:callback||done", "C10.overlap:pick||done", "C10.overlap:done||done", "C10.overlap:pick||pick"]},
+                 timeout=dict(quick=900, thorough=7200), crash_props=["C10"])])
+
 NOT_APPLICABLE = {}
 
 _POOL_NOTE = ("Trusted: the harness's shadow of the contract, the fake ClientConn/SubConn (gRPC 1.56 calling discipline), the build-time "
@@ -202,3 +213,7 @@ MANIFEST_TEXT["C15"] = dict(technique="runtime monitoring: routing observed at i
 MANIFEST_TEXT["C16"] = dict(technique="runtime monitoring with fault injection: enumerated invalid updates / dial failures, before/after routing snapshots, ClientConn states, goroutine profile",
     design_ref="DESIGN.md §5 C16", level_note=_GME_NOTE,
     level_text="Fault enumeration: each invalidity kind and each dial-failure position, at construction and at update, repeated so that Go's map order varies; an error must be returned, the routing snapshot (every ME name, unknown name, no name) and the open pool set must be identical before/after a rejected update, no RPC may panic or hit a closed pool after any update, after Close() every dialled conn is Shutdown and no client-side goroutine remains; a failed construction leaves nothing behind.")
+
+MANIFEST_TEXT["C10"] = dict(technique="Go race detector (-race, halt_on_error=0, reports de-duplicated by the pair of innermost repo functions) over schedule-perturbed concurrent workloads; fatal-error scanner",
+    design_ref="DESIGN.md §3.3, §5 C10", level_note="Trusted: the Go race detector; the harness adds synchronisation only at the boundary (fake ClientConn mutex, atomic.Value picker hand-over as in gRPC, channel hand-over of completions). Held = no report in the executions this run produced.",
+    level_text="Exploration: every workload is built with -race and executed several times per configuration with different seeds; any DATA RACE report with a repo frame or a 'concurrent map' fatal error is a violation whose signature is the unordered pair of innermost repo functions; the evidence lists picks, placements, completed swaps and the operation-kind overlap pairs observed.")
